@@ -156,7 +156,107 @@ fn extreme_salts<V: Fv>(ctx: &Ctx, rep: &mut Report) {
     rep.merge(r);
 }
 
+/// Tail-steered signatures (see steer.rs): honest signatures whose s2 has ONE coefficient far
+/// in the tail (beyond six standard deviations, in either direction), made by steering the
+/// integer sampler's outputs through the generator hook. They must verify like any other.
+fn tail_steered<V: Fv>(ctx: &Ctx, nkeys: usize, per_key: usize, rep: &mut Report) {
+    let (keys, _bad) = pool::keys::<V>(ctx.seed, "c01-tail", nkeys);
+    let hs: Vec<Vec<i64>> = keys.iter().map(|k| spec::pk_fields(&V::pk_to_bytes(&k.pk)[1..])).collect();
+    let r = par_for(keys.len() * per_key, ncpu(), |job, rep| {
+        let ki = job % keys.len();
+        let k = &keys[ki];
+        let mut rng = rng_for(ctx.seed, &format!("c01-tail-{}-{}", V::NAME, job));
+        use rand::Rng;
+        let j = rng.gen_range(0..V::N);
+        let msg = format!("tail-{}", job).into_bytes();
+        for flip in [false, true] {
+            let bits = match crate::steer::plan::<V>(&k.sk, j, flip) {
+                Some(b) => b,
+                None => {
+                    rep.inconclusive("steering plan could not be computed (reference sampler)".into());
+                    return;
+                }
+            };
+            let strat = Strategy::Directed { bits };
+            let label = format!("c01-tail-{}-{}-{}", V::NAME, job, flip);
+            let srng = ScriptedRng::new(ctx.seed, &label, strat.clone(), progress_budget(V::N));
+            let out = sign_scripted::<V>(&msg, &k.sk, srng, false, 0);
+            rep.evaluations += 1;
+            let replay = json!({"variant": V::NAME, "key_seed": hex(&k.seed), "msg": hex(&msg), "shape": "tail", "strategy": format!("directed: coefficient {} flip {}", j, flip), "compress_failures": 0, "vseed": ctx.seed, "label": label, "tail": {"j": j, "flip": flip}});
+            let sig = match out.sig {
+                Ok(s) => s,
+                Err(p) if p.no_progress => {
+                    rep.violation("sign:no-progress", format!("{} sign made no progress on a tail-steered sampler stream", V::NAME), replay);
+                    return;
+                }
+                Err(p) => {
+                    rep.violation(&format!("panic:sign@{}", short_loc(&p.location)), format!("{} sign panicked on a tail-steered sampler stream (coefficient {}): {}", V::NAME, j, p.message), replay);
+                    return;
+                }
+            };
+            let sb = V::sig_to_bytes(&sig);
+            let s2 = if sb.len() == V::SIG_LEN { spec::decompress(&sb[41..], V::N) } else { None };
+            let (mn, mx) = s2.as_ref().map(|v| (*v.iter().min().unwrap(), *v.iter().max().unwrap())).unwrap_or((0, 0));
+            rep.stat_min(&format!("min_s2_coefficient_{}", V::NAME), mn as f64);
+            rep.stat_max(&format!("max_s2_coefficient_{}", V::NAME), mx as f64);
+            let v1 = monitored(|| V::verify(&msg, &sig, &k.pk));
+            let (v2, trace) = if sb.len() == V::SIG_LEN { spec::verify_traced(&msg, &sb[1..41], &sb[41..], &hs[ki]) } else { (false, spec::VerifyTrace::BadEncoding) };
+            match v1 {
+                Err(p) => rep.violation(&format!("panic:verify@{}", short_loc(&p.location)), p.message.clone(), replay.clone()),
+                Ok(v1) => {
+                    if !v1 || !v2 {
+                        rep.violation("sign:signature-rejected-tail-coefficient", format!("{} honest signature with an s2 coefficient in the far tail (min {}, max {}) rejected: verify = {}, reference = {} ({:?}); {} norm rejects", V::NAME, mn, mx, v1, v2, trace, out.norm_rejects), replay.clone());
+                    }
+                }
+            }
+            if out.norm_rejects == 0 {
+                rep.count("tail_steered_first_attempt_signatures", 1);
+            }
+            rep.count("tail_steered_signatures", 1);
+            let six_sigma = (6.0 * V::SIGMA).ceil() as i64;
+            if mn <= -six_sigma {
+                rep.count("signatures_with_s2_below_minus_6_sigma", 1);
+            }
+            if mx >= six_sigma {
+                rep.count("signatures_with_s2_above_6_sigma", 1);
+            }
+            if mn <= -1024 || mx >= 1024 {
+                rep.count("signatures_with_s2_beyond_1024", 1);
+            }
+            rep.nontrivial(format!("tail|{}|{}|{}|{}", V::NAME, hex(&k.seed[..6]), j, flip).as_bytes());
+        }
+    });
+    rep.merge(r);
+}
+
+/// Keys from the planted-candidate key generator of C04 (a candidate with an out-of-range
+/// coefficient at the start of every second try): whatever key comes out must sign and verify.
+fn planted_keys<V: Fv>(ctx: &Ctx, count: usize, rep: &mut Report) {
+    let r = par_for(count, ncpu(), |i, rep| {
+        if let Some((sk, pk)) = super::c04::planted_key::<V>(ctx.seed, 1000 + i) {
+            let mut seed = [0u8; 32];
+            seed[..8].copy_from_slice(&(i as u64).to_le_bytes());
+            seed[31] = 0xfe; // label only: this key does not come from keygen(seed)
+            let h = spec::pk_fields(&V::pk_to_bytes(&pk)[1..]);
+            let k = Key::<V> { seed, sk, pk };
+            for m in 0..2 {
+                let msg = format!("planted-key-{}-{}", i, m).into_bytes();
+                check_sign::<V>(&k, &h, &msg, "planted-key", &Strategy::Honest, 0, ctx.seed, &format!("c01-planted-{}-{}-{}", V::NAME, i, m), rep);
+            }
+            rep.count("keys_from_the_planted_candidate_generator", 1);
+        }
+    });
+    rep.merge(r);
+}
+
 pub fn matrix(ctx: &Ctx, rep: &mut Report) {
+    planted_keys::<F1024>(ctx, ctx.sz(64, 600), rep);
+    planted_keys::<F512>(ctx, ctx.sz(16, 200), rep);
+    rep.require("keys_from_the_planted_candidate_generator", 40);
+    tail_steered::<F512>(ctx, 2, ctx.sz(12, 200), rep);
+    tail_steered::<F1024>(ctx, 2, ctx.sz(6, 100), rep);
+    rep.require("signatures_with_s2_below_minus_6_sigma", 8);
+    rep.require("signatures_with_s2_above_6_sigma", 8);
     extreme_salts::<F512>(ctx, rep);
     extreme_salts::<F1024>(ctx, rep);
     matrix_v::<F1024>(ctx, ctx.sz(4, 200), rep);
